@@ -365,6 +365,10 @@ impl FromTokens for Path {
 pub assume_specification<'a, T: Copy> [Option::<&'a T>::copied] (o: Option<&'a T>) -> (r: Option<T>)
     ensures r == (match o { Some(x) => Some(*x), None => None });
 
+/// `<[T]>::to_vec`: element-wise clone
+pub assume_specification<T: Clone> [<[T]>::to_vec] (s: &[T]) -> (r: Vec<T>)
+    ensures r@.len() == s@.len(), forall|i: int| 0 <= i < s@.len() ==> call_ensures(T::clone, (&s@[i],), #[trigger] r@[i]);
+
 /// `Option::as_ref` as a spec function
 pub open spec fn opt_ref<T>(o: &Option<T>) -> Option<&T> { match o { Some(x) => Some(x), None => None } }
 
